@@ -277,7 +277,7 @@ def check_arith(ctx):
                     ctx.check(bool(nm & {"timestamp", "now"}) or base.has_call("FeoxStore::resolve_timestamp"), inst, "PROVENANCE", b.path,
                               "expiry = timestamp.saturating_add(ttl * 1e9)", b.where(y.id), {"base": base.show()})
             ctx.check(ok, inst, "SIBLING", b.path, "the nanosecond TTL is added with saturating_add", b.where(x.id))
-    ctx.check(n >= 5, inst, "anchor", "-", "TTL arithmetic sites (>= 5, found %d)" % n, None)
+    ctx.check(n >= 3, inst, "anchor", "-", "TTL arithmetic sites (>= 3, found %d)" % n, None)
     # migration source is opened with TTL filtering off
     b = ctx.fn("migration::migration_config", inst) if ctx.prog.find("migration::migration_config") else None
     if b is None:
